@@ -41,6 +41,9 @@ func targetsOf(c *Ctx, known map[string]bool, rule string) []string {
 }
 
 func runRuleOn(prog *Program, prop *Property, r *Rule) (c *Ctx, err error) {
+	save := curProgram
+	curProgram = prog
+	defer func() { curProgram = save }()
 	c = &Ctx{P: prog, Prop: prop, Counters: map[string]int{}, seenKey: map[string]int{}}
 	c.cur = r
 	func() {
